@@ -18,6 +18,7 @@ import (
 	"os"
 	"strconv"
 	"strings"
+	"time"
 )
 
 // Rand is a splitmix64 generator: tiny, deterministic, identical on every platform.
@@ -38,7 +39,7 @@ func (r *Rand) Intn(n int) int {
 	}
 	return int(r.U64() % uint64(n))
 }
-func (r *Rand) Bool() bool       { return r.U64()&1 == 1 }
+func (r *Rand) Bool() bool        { return r.U64()&1 == 1 }
 func (r *Rand) Chance(p int) bool { return r.Intn(100) < p } // p percent
 func (r *Rand) Bytes(n int) []byte {
 	b := make([]byte, n)
@@ -105,6 +106,8 @@ type Trace struct {
 	w *bufio.Writer
 	f *os.File
 	N int
+
+	flushed time.Time
 }
 
 func NewTrace(path string) *Trace {
@@ -125,6 +128,12 @@ func (t *Trace) Line(caseDesc, observed string) {
 	t.w.WriteString(observed)
 	t.w.WriteByte('\n')
 	t.N++
+	// a driver killed by its phase time-out must not lose the lines it produced (the failing witnesses are
+	// usually among the slow ones): flush every 64 lines or 200 ms, whichever comes first
+	if t.N%64 == 0 || time.Since(t.flushed) > 200*time.Millisecond {
+		t.w.Flush()
+		t.flushed = time.Now()
+	}
 }
 
 func (t *Trace) Close() {
